@@ -49,9 +49,8 @@ class DB:
                         self.def_idx[(crate, int(key))] = (off, ln)
 
     def _read(self, crate, off, ln):
-        f = self.files[crate]
-        f.seek(off)
-        return json.loads(f.read(ln))
+        # positional read: safe when forked workers share the descriptor
+        return json.loads(os.pread(self.files[crate].fileno(), ln, off))
 
     def body(self, key):
         """record (fn/inst/prom) for a mangled key, or None"""
